@@ -73,6 +73,7 @@ type env struct {
 	orderRng   *gen.Rand
 	nextOrder  int
 	ordersSeen [][]int
+	tagSeq     int
 }
 
 func (e *env) emit(task int, s string) {
@@ -259,7 +260,7 @@ func (p *fakeProc) Process(_ context.Context, in []opencdc.Record) []sdk.Process
 	p.e.emit(p.id, fmt.Sprintf("P%d[%s]", p.id, recsStr(in)))
 	var rp reply
 	if p.e.gen {
-		rp = genProcReply(p.e.rng(p.id, p.calls), in, p.e.o)
+		rp = genProcReply(p.e, p.e.rng(p.id, p.calls), in, p.e.o)
 		p.calls++
 		p.e.record(p.id, rp)
 	} else {
@@ -295,7 +296,15 @@ func (p *fakeProc) Process(_ context.Context, in []opencdc.Record) []sdk.Process
 	return out
 }
 
-func genProcReply(r *gen.Rand, in []opencdc.Record, o *gen.Out) reply {
+// fresh derives a tag that is unique within the case and keeps the lineage root (tag % 1000).
+func (e *env) fresh(tag int) int {
+	e.mu.Lock()
+	defer e.mu.Unlock()
+	e.tagSeq++
+	return tag%1000 + 1000*e.tagSeq
+}
+
+func genProcReply(e *env, r *gen.Rand, in []opencdc.Record, o *gen.Out) reply {
 	rp := reply{}
 	calm := r.Chance(1, 3) // a third of the calls pass everything through
 	for _, rc := range in {
@@ -308,7 +317,7 @@ func genProcReply(r *gen.Rand, in []opencdc.Record, o *gen.Out) reply {
 		case 0:
 			rp.out = append(rp.out, pr{kind: 's', rec: cur})
 		case 1: // modified record, sometimes a rewritten position
-			nr := rec{tag: cur.tag + 1000, pos: cur.pos}
+			nr := rec{tag: e.fresh(cur.tag), pos: cur.pos}
 			if r.Chance(1, 3) {
 				nr.pos = []pos{{kind: 'n'}, {kind: 'e'}, {kind: 'k', k: 7000 + r.Intn(5)}}[r.Intn(3)]
 			}
@@ -320,7 +329,7 @@ func genProcReply(r *gen.Rand, in []opencdc.Record, o *gen.Out) reply {
 		case 4:
 			rp.out = append(rp.out, pr{kind: 'm'})
 		case 5:
-			rp.out = append(rp.out, pr{kind: 'm', multi: []rec{{tag: cur.tag + 2000, pos: cur.pos}}})
+			rp.out = append(rp.out, pr{kind: 'm', multi: []rec{{tag: e.fresh(cur.tag), pos: cur.pos}}})
 		case 6:
 			n := r.Range(2, 3)
 			var ms []rec
@@ -329,7 +338,7 @@ func genProcReply(r *gen.Rand, in []opencdc.Record, o *gen.Out) reply {
 				if j > 0 || r.Chance(1, 4) {
 					p = []pos{cur.pos, {kind: 'n'}, {kind: 'k', k: 8000 + r.Intn(9)}}[r.Intn(3)]
 				}
-				ms = append(ms, rec{tag: cur.tag*10 + j + 1, pos: p})
+				ms = append(ms, rec{tag: e.fresh(cur.tag), pos: p})
 			}
 			rp.out = append(rp.out, pr{kind: 'm', multi: ms})
 		case 7:
